@@ -8,7 +8,7 @@ AVR = '; verified a second time on the IR compiled with --target=avr (16-bit int
 CLAIMS = {
  'C06': ('proof', 'every obligation generated from the IR of the real LocalDate/LocalTime/LocalDateTime/local_date_mutation functions against contracts stating equality with a proleptic-Gregorian spec function is discharged for all inputs; round trips and inverses are lemmas over those contracts', NOTE + AVR, TECH, 'cxxvc'),
  'C17': ('proof', 'TimePeriod/TimeOffset/mutation helpers verified from IR for every argument and field value; ranges, inverses and the 15-minute cycle are postconditions or lemmas over the contracts; one listed known finding (incrementYear outside [0,99])', NOTE + AVR + '; AceCommon incrementMod* executed from the stub reproducing upstream', TECH, 'cxxvc'),
- 'C13': ('proof', 'SystemClock getNow (loop invariant + variant), syncNow, setNow, ctor verified from IR with ghost true time; the statement is an induction whose base and step are lemmas over the contracts; obligations relating machine values to unbounded time are discharged in an integer abstraction (sound for unsat)', NOTE + AVR + ' (except getNow#exact-time, undecided under the 16-bit model)' + '; clockMillis() = true time mod 2^32, constant during a call; reference/backup clocks are environment objects', TECH + ' + integer abstraction (vc/intblast.py)', 'cxxvc'),
+ 'C13': ('proof', 'SystemClock getNow (loop invariant + variant), syncNow, setNow, ctor verified from IR with ghost true time; the statement is an induction whose base and step are lemmas over the contracts; obligations relating machine values to unbounded time are discharged in an integer abstraction (sound for unsat)', NOTE + AVR + ' (except SystemClock::getNow, whose 32-bit obligations are not decided reliably and are left out of that pass)' + '; clockMillis() = true time mod 2^32, constant during a call; reference/backup clocks are environment objects', TECH + ' + integer abstraction (vc/intblast.py)', 'cxxvc'),
  'C10': ('proof', 'isSorted / linear / binary search with loop invariants and variants (termination), index guards, registrar and manager wrappers of both scopes verified from IR with quantified ghost registry views; every registry access carries index < size; a bounded ASan run is only the refuter that supplies concrete failing inputs', NOTE + '; strcmp modelled by an order embedding, result within int8 (7-bit ASCII names)', TECH, 'cxxvc'),
  'C16': ('proof', 'toTimeZoneData, createForTimeZoneData (numeric kType switch as compiled), operator== of TimeZone/TimeZoneData, factories, getZoneId and the id lookup chain verified from IR; save/restore round trip is a lemma over these contracts', NOTE + '; registry ids pairwise distinct (C11); manager verified for the <2> cache instantiations', TECH, 'cxxvc'),
 }
